@@ -137,6 +137,23 @@ func fibm(n int, memo *[16]int) int {
 
 type Pt struct{ x, y int }
 
+type Small struct{ a, b int32 }
+
+type Big struct {
+	a, b, c, d int
+	t          [2]int
+}
+
+func useBig(v Big) int      { return v.a + v.b*3 + v.c*5 + v.d*7 + v.t[1] }
+func (v Big) Tot() int      { return v.a - v.b + v.t[0] }
+func useArr5(v [5]int) int  { return v[0] + v[3]*10 }
+func useSeg(v Seg) int      { return v.a.x + v.b.y*3 + int(v.tag[1]) }
+func retPt(p *Pt) Pt        { v := *p; p.x = 9; return v }
+func retSmall(p *Small) Small { v := *p; p.a = 9; return v }
+func retBig(p *Big) Big     { v := *p; p.a = 9; return v }
+func retArr5(p *[5]int) [5]int { v := *p; p[0] = 9; return v }
+func retTwo(p *Pt) (Pt, int)   { v := *p; p.x = 9; return v, p.x }
+
 type Seg struct {
 	a, b Pt
 	tag  [2]int8
@@ -418,7 +435,7 @@ class Gen:
             self.emit(ind, "sink(%s(func(q int) int { return q*q - %s }, %s & 7))" % (f, cap, self.expr(vs, 2)))
 
     def feature(self, ind, vs, k=None):
-        k = self.r.randrange(21) if k is None else k
+        k = self.r.randrange(23) if k is None else k
         a = self.expr(vs, 1)
         b = self.expr(vs, 1)
         if k == 0:
@@ -637,6 +654,36 @@ class Gen:
             self.emit(ind + 1, "sink(%s)" % x)
             self.emit(ind, "}")
             self.emit(ind, "sink(%s)" % x)
+        elif k == 21:
+            # assignment and parameter passing copy values: a copy taken through a pointer is not
+            # affected by later stores to the original, whatever the size of the value
+            pb, v = self.fresh("pb"), self.fresh("bv")
+            self.emit(ind, "%s := &Big{a: %s, b: %s, c: 3, d: 4}" % (pb, a, b))
+            self.emit(ind, "%s := *%s" % (v, pb))
+            self.emit(ind, "%s.b = 77" % pb)
+            self.emit(ind, "%s.t[1] = 5" % pb)
+            self.emit(ind, "sink(useBig(%s) + %s.Tot())" % (v, v))
+            arr, w = self.fresh("ar"), self.fresh("aw")
+            self.emit(ind, "%s := &[5]int{1, %s, 3, 4, 5}" % (arr, a))
+            self.emit(ind, "%s := *%s" % (w, arr))
+            self.emit(ind, "%s[3] = %s" % (arr, b))
+            self.emit(ind, "sink(useArr5(%s))" % w)
+            sg, cp = self.fresh("sg"), self.fresh("sc")
+            self.emit(ind, "%s := &Seg{a: Pt{%s, 2}, b: Pt{3, %s}}" % (sg, a, b))
+            self.emit(ind, "%s := *%s" % (cp, sg))
+            self.emit(ind, "%s.a.x = 5" % sg)
+            self.emit(ind, "%s.tag[1] = 3" % sg)
+            self.emit(ind, "sink(useSeg(%s))" % cp)
+            pt, sm = self.fresh("pt"), self.fresh("sm")
+            self.emit(ind, "%s := &Pt{%s, %s}" % (pt, a, b))
+            self.emit(ind, "sink(retPt(%s).x + %s.x)" % (pt, pt))
+            self.emit(ind, "%s := &Small{int32(%s), 2}" % (sm, a))
+            self.emit(ind, "sink(int(retSmall(%s).a) + int(%s.a))" % (sm, sm))
+            self.emit(ind, "sink(retBig(%s).a + %s.a)" % (pb, pb))
+            self.emit(ind, "sink(retArr5(%s)[0] + %s[0])" % (arr, arr))
+            r2, n2 = self.fresh("rr"), self.fresh("rn")
+            self.emit(ind, "%s, %s := retTwo(&Pt{%s, 1})" % (r2, n2, b))
+            self.emit(ind, "sink(%s.x + %s)" % (r2, n2))
         else:
             n = self.fresh("n")
             self.emit(ind, "%s := 0" % n)
@@ -735,7 +782,7 @@ def gen_program(seed, nfuncs=12, arr_mut=True):
         g.function(i)
     # every feature snippet once, so that no language feature depends on the dice
     g.emit(0, "func tour(p0, p1 int) (res int) {")
-    for k in range(21):
+    for k in range(23):
         g.feature(1, ["p0", "p1"], k)
     g.emit(1, "return p0 ^ p1")
     g.emit(0, "}")
